@@ -263,7 +263,9 @@ func checkC11(r *Run) {
 	shiftSpace(r, skipQuotedDrv, "skipquoted", sub(skipQuotedSpaces(r)), plain, every)
 	// relocation of parsed URIs: moved to offset k (span = URI length) every component denotes the same text
 	fam := c15Family(r.pick(300, 1500))
-	telURIs := []string{"tel:123", "tel:+1-555-0100;phone-context=x.example", "tel:7042;a=b?h=1", "TEL:9"}
+	telURIs := []string{"tel:123", "tel:+1-555-0100;phone-context=x.example", "tel:7042;a=b?h=1", "TEL:9",
+		// URIs that end in a separator (empty last component)
+		"sip:h;", "sip:h?", "sip:h:", "sip:u@h;p=1?", "sips:u:p@h:5061;", "tel:1;"}
 	parallelFor(r, len(fam)+len(telURIs), func(c *enumCtx, i int) {
 		var s []byte
 		if i < len(fam) {
@@ -276,6 +278,21 @@ func checkC11(r *Run) {
 			ks = nil
 			for k := 1; k+len(s) <= 65535; k++ {
 				ks = append(ks, k)
+			}
+		}
+		// the verdict for a span does not depend on where the URI is or goes: also "moved" onto its own position
+		for _, k := range []int{0, 1, 255, 65535 - len(s)} {
+			for _, span := range []int{len(s) - 1, len(s), len(s) + 1} {
+				if k+span > 65535 {
+					continue
+				}
+				vs, _ := evalC18(s, k, k, span)
+				c.st.Transitions++
+				for _, v := range vs {
+					v.Property = "C11"
+					v.Case.Kind = "C11uri"
+					r.Col.add(v)
+				}
 			}
 		}
 		for _, k := range ks {
